@@ -96,7 +96,7 @@ CLAIMS = {
     ),
     "C15": dict(
         engine="world",
-        text="Lean 4: abstract select!-loop model with the choice among ready sides as a free parameter — for EVERY interleaving of arrivals and EVERY choice sequence: sent-on-the-other-side ++ still-queued = everything that arrived, per direction (verbatim, once, in order), capture gets one copy per forwarded message, the losing side's message stays queued; chain clause via C07_chain. Tie: the real proxy(ROUTER, DEALER, capture PUSH/PUB/none) future stepped one poll at a time over scripted clients/workers/sink, exhaustive 3-event arrival patterns incl. both sides ready in one poll, 1..2 clients x 1..2 workers x payload shapes, seeded schedules; the World model (proxyPoll) predicts every wire; oracle: forwarded = received per direction, per-source order, capture copies, replies reach the client named in their envelope. Family chain-reconnect: a client connects again under its configured identity while its old connection is still registered (open, or closed but not yet polled) and makes a request — answered on the NEW connection only. Family no-worker: a request taken while the backend has no peer — the proxy may end with the error but must not keep running having dropped it.",
+        text="Lean 4: abstract select!-loop model with the choice among ready sides as a free parameter — for EVERY interleaving of arrivals and EVERY choice sequence: sent-on-the-other-side ++ still-queued = everything that arrived, per direction (verbatim, once, in order), capture gets one copy per forwarded message, the losing side's message stays queued; chain clause via C07_chain. SOCKET LEVEL (Model.World's proxy future, the function tied to the real proxy()): a ghost-traced copy of proxyPoll erases to it (C15_world_trace_erases); ONE poll from any state in any world is a word of the forwarding grammar (C15_world_poll_grammar); over EVERY history of polls in arbitrary worlds everything recv returned on one side has been sent on verbatim, once, in order on the OTHER side, except at most the one message being copied to the capture socket, which gets a copy of everything taken (C15_world_verbatim). Tie: the real proxy(ROUTER, DEALER, capture PUSH/PUB/none) future stepped one poll at a time over scripted clients/workers/sink, exhaustive 3-event arrival patterns incl. both sides ready in one poll, 1..2 clients x 1..2 workers x payload shapes, seeded schedules; the World model (proxyPoll) predicts every wire; oracle: forwarded = received per direction, per-source order, capture copies, replies reach the client named in their envelope. Family chain-reconnect: a client connects again under its configured identity while its old connection is still registered (open, or closed but not yet polled) and makes a request — answered on the NEW connection only — also when the old connection ended with a decoder error or a reset, noticed by the proxy or not. Family no-worker: a request taken while the backend has no peer — the proxy may end with the error but must not keep running having dropped it.",
         note=LEAN_NOTE + "futures::select! as a free choice among ready branches; schedules where a send blocks while both sides are ready are not compared",
         technique="Lean 4 proof (invariant for all choice sequences) + one-poll-at-a-time correspondence of the real proxy future",
     ),
